@@ -184,6 +184,18 @@ def add_observations(crate, project, ptable, rng, max_keys=40):
                     chain = "let s = scope_locale!(%s, %s); " % (lv, idents[0]) + "".join("let s = scope_locale!(s, %s); " % i for i in idents[1:])
                     b.append('    { %slet v = td!(s, %s%s); emit(%d, "scope_locale:chained", &html(v)); }' % (chain, last, V, oid))
                     flavours.append("scope_locale:chained")
+                # the other argument syntaxes of the t! family: bare `name` / `<comp>` (a variable of that name in scope), and
+                # `<comp> = <tag attrs />` against the closure it stands for
+                if args or cvals or allc:
+                    ls, ts = e2e.shorthand_tokens(args, cvals, allc, "string")
+                    lw, tw = e2e.shorthand_tokens(args, cvals, allc, "view")
+                    b.append('    { %s let v = td_string!(%s, %s, %s); emit(%d, "td_string:shorthand", &v.to_string()); }' % (ls, lv, kp, ts, oid))
+                    b.append('    { %s let v = td!(%s, %s, %s); emit(%d, "td:shorthand", &html(v)); }' % (lw, lv, kp, tw, oid))
+                    flavours += ["td_string:shorthand", "td:shorthand"]
+                if allc:
+                    d1, d2 = e2e.direct_comp_tokens(args, cvals, allc)
+                    b.append('    { let v = td!(%s, %s, %s); emit(%d, "direct_comp:tag", &html(v)); }' % (lv, kp, d1, oid))
+                    b.append('    { let v = td!(%s, %s, %s); emit(%d, "direct_comp:closure", &html(v)); }' % (lv, kp, d2, oid))
                 if lk is not None:
                     chain = ".".join("%s()" % i for i in idents + [last])
                     b.append('    { let v = %s.get_keys_const().%s.inner(); emit(%d, "const", &v.to_string()); }' % (lv, chain, oid))
@@ -197,7 +209,7 @@ VIEW = ("td", "t", "tu")
 
 
 def is_view(fl):
-    return fl in VIEW or fl.startswith("scope_i18n_view") or fl == "scope_locale:chained"
+    return fl in VIEW or fl.startswith("scope_i18n_view") or fl in ("scope_locale:chained", "td:shorthand")
 
 
 def judge(res, crate, obs):
@@ -236,6 +248,13 @@ def judge(res, crate, obs):
                                "expect": {k: v for k, v in exp.items() if k != "rnodes"}, "format": crate.fmt})
             else:
                 res.sample({"locale": exp["locale"], "key": ".".join(exp["path"]), "flavour": fl, "text": text}, limit=8)
+        if "direct_comp:tag" in got or "direct_comp:closure" in got:
+            res.ev()
+            res.count("flavour:direct_comp")
+            a, b_ = (got.get("direct_comp:tag") or {}).get("v"), (got.get("direct_comp:closure") or {}).get("v")
+            if a is None or a != b_:
+                res.violation("C02/flavour-differs/direct_comp", "crate=%s key=%s locale=%s: `<c> = <span .. />` renders %r, the closure it stands for %r" % (
+                    crate.name, ".".join(exp["path"]), exp["locale"], a, b_), {"project": gen.project_to_jsonable(crate.project), "expect": {k: v for k, v in exp.items() if k != "rnodes"}})
         # scoping never changes the locale
         for fl, o in got.items():
             if fl.endswith(":locale") or fl == "ctx_locale":
